@@ -527,6 +527,23 @@ func sweep(yield func(dCase) bool) {
 			}
 		}
 	}
+	// ... nor on where 'now' lies relative to the zone's clock changes: zones west of Greenwich whose NEXT change (in 1, 2, 30 days)
+	// or last change (2 days ago) removes a local midnight - that day and its neighbours
+	if ev.Shard() == 3%ev.Shards() {
+		for _, n := range []int{1, 2, 30, -2, 0} {
+			z := fmt.Sprintf("Synthetic/SkipsMidnightInDays/%d", n)
+			day := time.Now().UTC().AddDate(0, 0, n)
+			for delta := -1; delta <= 1; delta++ {
+				w := day.AddDate(0, 0, delta)
+				if !yield(dCase{Zone: z, Kind: "date", Y: w.Year(), M: int(w.Month()), D: w.Day()}) {
+					return
+				}
+				if !yield(dCase{Zone: z, Kind: "datetime", Y: w.Year(), M: int(w.Month()), D: w.Day(), H: 1, Mi: 30, S: 0}) {
+					return
+				}
+			}
+		}
+	}
 	boundaries := []spec.Civil{{Y: 1, M: 1, D: 2}, {Y: 1, M: 12, D: 31}, {Y: 1582, M: 10, D: 10}, {Y: 1899, M: 12, D: 31}, {Y: 1900, M: 2, D: 28}, {Y: 1900, M: 3, D: 1}, {Y: 1970, M: 1, D: 1}, {Y: 1999, M: 12, D: 31},
 		{Y: 2000, M: 1, D: 1}, {Y: 2000, M: 2, D: 29}, {Y: 2024, M: 2, D: 29}, {Y: 2024, M: 3, D: 31}, {Y: 2024, M: 10, D: 27}, {Y: 2038, M: 1, D: 19}, {Y: 2100, M: 2, D: 28}, {Y: 9999, M: 12, D: 31}}
 	for _, z := range myZones() {
